@@ -28,3 +28,38 @@ fn __h_intersection(new_dominators: &HashSet<usize>, other: &HashSet<usize>) -> 
 fn __h_set_ne(a: &HashSet<usize>, b: &HashSet<usize>) -> (r: bool)
     ensures r == (a@ != b@)
 { a != b }
+
+#[verifier::external_body]
+fn __h_vec_none(nof_blocks: usize) -> (r: Vec<Option<usize>>)
+    ensures r@.len() == nof_blocks, forall|k: int| 0 <= k < r@.len() ==> (#[trigger] r@[k]) is None
+{ vec![None; nof_blocks] }
+
+#[verifier::external_body]
+fn __h_vec_empty_sets(nof_blocks: usize) -> (r: Vec<HashSet<usize>>)
+    ensures r@.len() == nof_blocks, forall|k: int| 0 <= k < r@.len() ==> (#[trigger] r@[k])@ == Set::<usize>::empty()
+{ vec![HashSet::new(); nof_blocks] }
+
+// `Dom(j) \ {j}  U  all_dominators`
+#[verifier::external_body]
+fn __h_union_strict(dom_j: &HashSet<usize>, j: &usize, all_dominators: &HashSet<usize>) -> (r: HashSet<usize>)
+    ensures r@ == dom_j@.remove(*j).union(all_dominators@)
+{ dom_j.clone().into_iter().filter(|&k| k != *j).collect::<HashSet<usize>>().union(all_dominators).copied().collect() }
+
+#[verifier::external_body]
+fn __h_difference(a: &HashSet<usize>, b: &HashSet<usize>) -> (r: HashSet<usize>)
+    ensures r@ == a@.difference(b@)
+{ a - b }
+
+// `set.iter().next()`: some element of the set, None iff the set is empty
+#[verifier::external_body]
+fn __h_first(s: &HashSet<usize>) -> (r: Option<&usize>)
+    ensures
+        r is None <==> s@.len() == 0,
+        r is Some ==> s@.contains(*r->Some_0),
+{ s.iter().next() }
+
+// `HashSet::clone`
+#[verifier::external_body]
+fn __h_clone_set(s: &HashSet<usize>) -> (r: HashSet<usize>)
+    ensures r@ == s@
+{ s.clone() }
